@@ -1,7 +1,9 @@
 """C18 -- option parsing is total, and exact on everything it accepts."""
+import fcntl
 import json
 import os
 import re
+import shutil
 from fractions import Fraction
 
 import verif
@@ -11,7 +13,11 @@ RULE = ("per parser (port range, port list, ports file, rate limit, payload, IP 
         "letter case; port lists; rates with every unit; hex-escaped and literal payloads; files with comments, "
         "blanks, CRLF), a fixed list of near-misses (empty, signs, spaces, repeated separators, 65536, huge numbers, "
         "unicode digits, NUL, lines around the 64 KiB scanner limit, ill-formed UTF-8) and strings drawn from a small "
-        "alphabet; non-trivial = accepted input; distinct by (parser, input)")
+        "alphabet; non-trivial = accepted input; distinct by (parser, input). Option plumbing (stage optcombo): every "
+        "command that accepts both -p/--ports and --ports-file (tcp, tcp syn/fin/null/xmas, udp, socks, docker, elastic) "
+        "is given a generated port list TOGETHER with a generated ports file (with ranges, only comments, empty, one bad "
+        "line; every spelling and order of the two options) on its own flag set, its own parseRawOptions runs, and the "
+        "port ranges it would scan must be exactly the ranges written in the list followed by those written in the file")
 
 KINDS = {"portrange": 1, "portranges": 2, "portsfile": 3, "rate": 4, "payload": 5, "ipflags": 6, "tcpflags": 7,
          "exclude": 8}
@@ -395,6 +401,107 @@ def judge_rows(ctx, rows, seen, count=True):
             report(ctx, o, r[0], r[1], seen)
 
 
+
+# ---------------------------------------------------------------- stage optcombo: -p together with --ports-file
+
+OPT_HOOK = "verif_export_c18opts.go"
+
+
+def build_opts(ctx):
+    """harness_build for cmd/c18opts; the add-only hook command/verif_export_c18opts.go is laid over the tree
+    under test with go build -overlay as long as that tree does not carry it itself (nothing is written to the tree)"""
+    hdir = os.path.join(verif.ROOT, "harness")
+    os.makedirs(verif.HBIN, exist_ok=True)
+    with open(os.path.join(hdir, ".build.lock"), "w") as lk:
+        fcntl.flock(lk, fcntl.LOCK_EX)
+        cmd = ["go", "build", "-tags", "verif"]
+        if verif.REPO == "/repo":
+            shutil.copyfile(os.path.join(verif.REPO, "go.sum"), os.path.join(hdir, "go.sum"))
+        else:
+            tag = re.sub(r"\W", "_", verif.REPO)
+            alt = os.path.join(hdir, "go.%s.mod" % tag)
+            with open(alt, "w") as f:
+                f.write(open(os.path.join(hdir, "go.mod")).read().replace("=> /repo", "=> " + verif.REPO))
+            shutil.copyfile(os.path.join(verif.REPO, "go.sum"), alt[:-4] + ".sum")
+            cmd += ["-modfile", alt]
+        dst = os.path.join(os.path.realpath(verif.REPO), "command", OPT_HOOK)
+        if not os.path.exists(dst):
+            ov = os.path.join(ctx.work, "overlay-c18opts.json")
+            with open(ov, "w") as f:
+                json.dump({"Replace": {dst: os.path.join(verif.ROOT, "fixes", "c18", "hooks", "command", OPT_HOOK)}}, f)
+            cmd += ["-overlay", ov]
+        rc, out = verif.sh(cmd + ["-o", os.path.join(verif.HBIN, "c18opts"), "./cmd/c18opts"], env=verif.GOENV, cwd=hdir,
+                           timeout=1200)
+    if rc != 0:
+        ctx.broken.append(("correspondence: harness c18opts does not build against the current tree", out[-3000:]))
+        return False
+    return True
+
+
+def pairs(nums):
+    return list(zip(nums[0::2], nums[1::2]))
+
+
+def spec_on_combo(o):
+    """The property on one command line: the ports a command takes from -p LIST --ports-file FILE are exactly the
+    ranges written in LIST followed by the ranges written in FILE (either text denoting nothing -> an error)."""
+    lst, data = bytes.fromhex(o["list"]), bytes.fromhex(o["file"])
+    what = "%s %s (ports file = %r)" % (o["cmd"], " ".join(o["argv"]), data[:80].decode("latin1"))
+    if o.get("panic"):
+        return ("optcombo:panic", "option parsing of %s crashed: %s" % (what, o["panic"]))
+    dl = denote_ranges(lst) if o["has_list"] else []
+    df = denote_ports_file(data) if o["has_file"] else []
+    want = None if dl is None or df is None else dl + df
+    if o["ok"]:
+        if want != o["nums"]:
+            key = "optcombo:" + ("list-and-file" if o["has_list"] and o["has_file"] else "single-option")
+            return (key, "%s is accepted and the command scans %s, but the list denotes %s and the file denotes %s" % (
+                what, pairs(o["nums"])[:10], "nothing" if dl is None else pairs(dl)[:10],
+                "nothing" if df is None else pairs(df)[:10]))
+    elif want is not None and o["class"] in ("list+file", "list+comment-only-file", "list+empty-file", "list-only", "file-only"):
+        return ("optcombo:rejects-canonical", "%s is rejected although list and file are canonical" % what)
+    return None
+
+
+def report_combo(ctx, o, key, why, seen):
+    if seen.get(key, 0) >= 1:
+        seen[key] += 1
+        return
+    seen[key] = 1
+    path = ctx.write_replay(re.sub(r"\W", "-", key), {
+        "property": "C18", "what": why, "key": key,
+        "input": {"kind": "optcombo", "cmd": o["cmd"], "has_list": o["has_list"], "has_file": o["has_file"],
+                  "list": o["list"], "file": o["file"], "mode": o["mode"], "argv": o["argv"],
+                  "list_text": bytes.fromhex(o["list"]).decode("latin1"),
+                  "file_text": bytes.fromhex(o["file"])[:400].decode("latin1")},
+        "observed": {k: o.get(k) for k in ("ok", "nums", "panic")},
+        "replay_cmd": "bin/check C18 --replay <this file>"})
+    ctx.findings.append({"key": key, "what": why, "replay": path})
+
+
+def stage_optcombo(ctx, seen):
+    if not build_opts(ctx):
+        return
+    ok, _ = ctx.harness_run("c18opts", ["-out", "optcombo.jsonl", "-seed", ctx.seed, "-n", 3 if ctx.tier == "quick" else 200],
+                            timeout=900)
+    if not ok:
+        return
+    rows = ctx.read_jsonl(os.path.join(ctx.work, "optcombo.jsonl"))
+    cmds = set()
+    for o in rows:
+        cmds.add(o["cmd"])
+        ctx.count("optcombo/" + o["class"], ("optcombo", o["cmd"], o["list"], o["file"], o["has_list"], o["has_file"], o["mode"]),
+                  nontrivial=bool(o["ok"]) and o["has_list"] and o["has_file"],
+                  sample={"parser": "optcombo", "class": o["class"], "cmd": o["cmd"], "argv": o["argv"][:4],
+                          "file": bytes.fromhex(o["file"])[:48].decode("latin1"), "accepted": o["ok"], "nums": o["nums"][:8]})
+        r = spec_on_combo(o)
+        if r:
+            report_combo(ctx, o, r[0], r[1], seen)
+    need = {"tcp", "tcp syn", "tcp fin", "tcp null", "tcp xmas", "udp", "socks", "docker", "elastic"}
+    if not need <= cmds:
+        ctx.broken.append(("correspondence: stage optcombo did not reach the commands %s" % sorted(need - cmds), ""))
+
+
 def run(ctx):
     quick = ctx.tier == "quick"
     ctx.trusted += [
@@ -403,7 +510,8 @@ def run(ctx):
         "SpecFloat), bufio.Scanner with ScanLines and its 64 KiB token limit",
         "ip.ParseIPNet (net.ParseCIDR/ParseIP) is an oracle input of the exclusion-file model; cidranger = set of networks",
         "gopacket serialisation of layers.TCP / layers.IPv4 flag fields (field -> header bit), observed on the wire by the harness",
-        "command/verif_export_c18.go wrappers (build tag verif)",
+        "command/verif_export_c18.go and command/verif_export_c18opts.go wrappers (build tag verif; the latter is laid "
+        "over the tree with go build -overlay while the tree does not carry it)",
         "the window of a rate is exact relative to time.ParseDuration's reading of the written window text",
     ]
     ctx.assumptions += ["64-bit platform (int is 64 bits wide in parseRateLimit)",
@@ -435,6 +543,7 @@ def run(ctx):
             if ok:
                 rows = ctx.read_jsonl(os.path.join(ctx.work, "corpus.jsonl")) + rows
     judge_rows(ctx, rows, seen)
+    stage_optcombo(ctx, seen)
     cases = [o for o in rows if o["kind"] in KINDS]
     if model_ok and cases:
         nshards = 16 if quick else 64
@@ -476,6 +585,19 @@ def replay(ctx, path):
         print(json.dumps(r, indent=1))
         return 1
     i = r["input"]
+    if i.get("kind") == "optcombo":
+        if not build_opts(ctx):
+            return 1
+        q = {k: i[k] for k in ("cmd", "has_list", "has_file", "list", "file", "mode")}
+        ok, _ = ctx.harness_run("c18opts", ["-out", "one.jsonl", "-one", json.dumps(q)], timeout=600)
+        if not ok:
+            return 1
+        o = ctx.read_jsonl(os.path.join(ctx.work, "one.jsonl"))[0]
+        o["class"] = "list+file"
+        why = spec_on_combo(o)
+        print("replay %s %s: %s" % (o["cmd"], " ".join(o["argv"]), why[1] if why else
+                                    "property holds on this input (the command scans %s)" % pairs(o["nums"])))
+        return 1 if why else 0
     if not ctx.harness_build("c18"):
         return 1
     ok, _ = ctx.harness_run("c18", ["-out", "one.jsonl", "-one", "%s:%s" % (i["kind"], i["hex"])], timeout=600)
